@@ -1506,7 +1506,26 @@ func ruleResetCover(w *World, r *RuleResult) {
 		return false, ""
 	}
 	// the core's contents are changed by every battle: Reset must replace the core
-	r.check(resetMods[c.a.MemField], c.a.SimT.Obj().Name()+"."+c.a.MemField, w.Pos(c.a.Reset.Pos()), "core re-created by Reset (MOD.len checks it is make([]Instruction, M))", "Reset does not replace the core although battles change its cells")
+	// ... or zero every cell of it (clear(core)), which a fresh make does as well
+	cleared := false
+	if rps, err := w.Paths(c.a.Reset); err == nil {
+		all := len(rps) > 0
+		for _, p := range rps {
+			if p.End != "ret" {
+				continue
+			}
+			here := false
+			for i := range p.Events {
+				e := &p.Events[i]
+				if e.Kind == "builtin" && e.Method == "clear" && len(e.Args) == 1 && c.isRecvField(e.Args[0], c.a.MemField) {
+					here = true
+				}
+			}
+			all = all && here
+		}
+		cleared = all
+	}
+	r.check(resetMods[c.a.MemField] || cleared, c.a.SimT.Obj().Name()+"."+c.a.MemField, w.Pos(c.a.Reset.Pos()), "core re-created by Reset (MOD.len checks it is make([]Instruction, M))", "Reset does not replace the core although battles change its cells")
 	for _, nt := range []*types.Named{c.a.SimT, c.a.WarT} {
 		tn := nt.Obj().Name()
 		for _, f := range fieldsOf(nt) {
@@ -1873,20 +1892,33 @@ func ruleTabRecorder(w *World, r *RuleResult) {
 					if e.Kind != "call" || e.Callee == nil || e.Callee.Pkg != rep.Pkg {
 						continue
 					}
+					// the callee is handed the report, or the fields of it that it needs
 					var rp string
+					fieldParam := map[string]string{} // report field -> callee parameter
 					for k, prm := range e.Callee.Params {
-						if typeName(prm.Type()) == "Report" && k < len(e.Args) && e.Args[k].Op == "p" && e.Args[k].S == pname {
+						if k >= len(e.Args) {
+							continue
+						}
+						if typeName(prm.Type()) == "Report" && e.Args[k].Op == "p" && e.Args[k].S == pname {
 							rp = prm.Name()
 						}
+						for _, f := range []string{"Address", "WarriorIndex"} {
+							if isRepField(e.Args[k], f) {
+								fieldParam[f] = prm.Name()
+							}
+						}
 					}
-					if rp == "" {
+					if rp == "" && len(fieldParam) == 0 {
 						continue
 					}
 					cps, _ := w.Paths(e.Callee)
 					for _, cp := range cps {
 						f2, g2 := spawnLoop(cp, func(t *T, f string) bool {
 							t = stripConv(t)
-							return t.Op == "sel" && t.S == f && t.A[0].Op == "p" && t.A[0].S == rp
+							if t.Op == "p" && fieldParam[f] != "" && t.S == fieldParam[f] {
+								return true
+							}
+							return rp != "" && t.Op == "sel" && t.S == f && t.A[0].Op == "p" && t.A[0].S == rp
 						})
 						if f2 {
 							found, good = true, g2
